@@ -21,6 +21,9 @@ THEOREMS = [_NS + t for t in (
     # tier 3, range compression in context: constant runs of any scalar type and int32 arithmetic runs among
     # uncompressed scalar values, in any number and order (the cell-level theorem and the statement-level one)
     "runs_roundtrip_cells", "print_scan_roundtrip_runs_partial",
+    # when rtosc_convert_to_range finds a run that is followed by further values (the run hypotheses from the values)
+    "convertToRange_crun_of_next", "convertToRange_irun_of_next",
+    "PrinterSegments.crun_of_next", "PrinterSegments.irun_of_next",
     # the model is written over the constants/tables extracted from the source on every run
     "tables_agree", "escape_tables_inverse")]
 HARNESS = {"src": ["pretty.cpp"]}
@@ -78,7 +81,10 @@ ASSUMPTIONS = [
     "conditions: rtosc_convert_to_range called at the start of each segment on the rest of the list returns nothing "
     "for an uncompressed value, the whole constant run, resp. the whole arithmetic run (so runs are maximal); an "
     "arithmetic run stays inside int32 incl. the step behind its last element (fix C10-11), is not wider than 2^31-1 "
-    "(fix C10-15), and its count fits an int32_t; compression on. range_roundtrip_const / range_roundtrip_int are the "
+    "(fix C10-15), and its count fits an int32_t; compression on. The two run conditions follow from the values "
+    "(PrinterSegments.crun_of_next / irun_of_next): the value behind a constant run is not identical to the run's value "
+    "(range_args_identical), the value behind an arithmetic run is not its continuation a + n*d; the condition for an "
+    "uncompressed value stays the printer's own (as in list_roundtrip_uncompressed). range_roundtrip_const / range_roundtrip_int are the "
     "special cases of a list that is exactly one run, with the run conditions stated on the values only",
     "NOT proved, covered by correspondence + round-trip oracle only: compressed runs inside arrays and lists that "
     "contain arrays next to compressed runs, arithmetic runs of 'h' 'c' 'T' 'F' values, runs of arrays, nested arrays, "
